@@ -44,8 +44,10 @@ def auto_discharge(site, fn, T, panic_abort):
             cond = T.operand(t["cond"])
             if cond[0] == "bin" and cond[1] == "Eq" and is_const(cond[2]) and cond[2][1] != 0 and cond[3] == ("const", 0):
                 return "divisor is the non-zero constant %s" % cond[2][1]
-            if cond[0] == "bin" and cond[1] == "Eq" and is_const(cond[3]) and cond[3][1] == 0 and is_const(cond[2]) is False:
-                pass
+            if cond[0] == "bin" and cond[1] == "Eq" and cond[3] == ("const", 0) and not is_const(cond[2]):
+                g = _guarded_nonzero(fn, T, site.bb, cond[2])
+                if g:
+                    return g
     if site.kind == "unwrap" and site.terms:
         a = site.terms[0]
         if a[0] == "call" and a[1] in ("std::sync::Mutex::lock", "std::sync::RwLock::read", "std::sync::RwLock::write"):
@@ -79,6 +81,36 @@ def pnames(fn, ty_substr=None, index=None):
 def is_p(t, names):
     """t is a parameter (or a capture of it in the async body / a closure) with one of `names`"""
     return t[0] in ("upvar", "param") and t[-1] in names
+
+
+def _guarded_nonzero(fn, T, bb, divisor):
+    """The division at block bb is dominated by the true edge of `divisor != 0` (or `divisor > 0`, or the false edge of
+    `divisor == 0`) and the divisor is a value that cannot change in between (parameter, field of &self, single-def local)."""
+    from engine.mir import CFG
+    if any(x[0] == "var" and len(T.defs.get(x[1], ())) >= 2 for x in subterms(divisor)):
+        return None
+    cfg = fn._cache.get("cfg_plain")
+    if cfg is None:
+        cfg = CFG(fn, True)
+        fn._cache["cfg_plain"] = cfg
+    for sb in range(len(fn.blocks)):
+        si = T.switch_info(sb)
+        if si is None:
+            continue
+        scrut, edges = si
+        want = None
+        if scrut[0] == "bin" and scrut[1] in ("Ne", "Gt") and scrut[2] == divisor and scrut[3] == ("const", 0):
+            want = True
+        elif scrut[0] == "bin" and scrut[1] == "Eq" and scrut[2] == divisor and scrut[3] == ("const", 0):
+            want = False
+        elif scrut[0] == "call" and scrut[1] in ("std::cmp::PartialEq::ne", "std::cmp::PartialOrd::gt") and len(scrut[2]) == 2 and scrut[2][0] == divisor and scrut[2][1] == ("const", 0):
+            want = True
+        if want is None:
+            continue
+        for tgt, labs in edges.items():
+            if labs == [want] and len(cfg.pred[tgt]) == 1 and cfg.dominates(tgt, bb):
+                return "divisor tested non-zero on the dominating branch"
+    return None
 
 
 def load_table(name):
